@@ -135,7 +135,7 @@ def vcloop(loop_id, iterable):
     if c.decide(enter.term):
         k = it.fresh_index(c)
         c.assume(it.in_range(k))
-        c.add_index_terms([k])
+        c.add_index_terms([k, k + 1, k - 1])
         _assume_inv(c, spec.invariant(env, k, entry=False))
         env.ghost["loop_exit"] = None
         try:
